@@ -51,6 +51,10 @@ pub trait Oracle {
     fn root_mismatch(&mut self, c: &mut Collector, _fen: &str, _detail: &str) {
         c.count("root-parse-mismatch");
     }
+    /// The board produced by playing `_m` on `_n` does not show the position the model means
+    /// (`_got` = what was observed, or why it could not be observed).  Called BEFORE the walk
+    /// re-synchronises the real board from the model's FEN, i.e. with the board as it was moved.
+    fn diverged(&mut self, _c: &mut Collector, _n: &Node, _m: Mv, _moved: &Board, _want: &Position, _got: Result<&Position, &str>) {}
 }
 
 pub fn move_class(p: &Position, m: Mv) -> &'static str {
@@ -180,10 +184,15 @@ pub fn run_history(
         }
         // if the real board diverged from the model (a C02 matter), re-synchronise so that the
         // other monitors keep judging the position the model means
-        match observe(&real) {
-            Ok(p) if p == next_model => {}
+        let seen = observe(&real);
+        match &seen {
+            Ok(p) if *p == next_model => {}
             _ => {
                 c.count("walk-resync-after-successor-divergence");
+                {
+                    let n = Node { family, root_fen: &root_fen, moves: &moves, model: &model, real: &real, legal: &legal, focus: false };
+                    o.diverged(c, &n, m, &real, &next_model, seen.as_ref().map_err(|e| e.as_str()));
+                }
                 match real::parse(&next_model.to_fen()) {
                     Ok(b) => real = b,
                     Err(_) => return,
@@ -706,6 +715,63 @@ fn last_move_signature(n: &Node) -> String {
 }
 
 impl Oracle for C03 {
+    /// The moved board would be replaced by a freshly parsed one before the next node is judged
+    /// (so that one divergence is not reported at every later node); what C03 promises about the
+    /// moved board - same clocks, rights, e.p. marker, status and text as the position built from
+    /// scratch - is therefore judged here, on the board as the move left it.
+    fn diverged(&mut self, c: &mut Collector, n: &Node, m: Mv, moved: &Board, want: &Position, got: Result<&Position, &str>) {
+        // clock values at the 16-bit limit are outside the property's quantifier (the counters saturate)
+        if want.half >= 65535 || want.full >= 65535 {
+            return;
+        }
+        let fen = want.to_fen();
+        let Ok(sb) = real::parse(&fen) else {
+            c.count("scratch-parse-rejected");
+            return;
+        };
+        let mut diffs: Vec<&str> = Vec::new();
+        if sb.half_move_clock() != moved.half_move_clock() || sb.full_move_clock() != moved.full_move_clock() {
+            diffs.push("clocks");
+        }
+        if sb.state() != moved.state() {
+            diffs.push("state");
+        }
+        if sb.in_check() != moved.in_check() {
+            diffs.push("in_check");
+        }
+        if sb != *moved {
+            diffs.push("eq");
+        }
+        if sb.to_string() != moved.to_string() {
+            diffs.push("display");
+        }
+        if format!("{sb:?}") != format!("{moved:?}") {
+            diffs.push("debug");
+        }
+        if real_moves(&sb) != real_moves(moved) {
+            diffs.push("legal-moves");
+        }
+        if diffs.is_empty() {
+            // the observation differs from the model but the board is indistinguishable from the
+            // parser's: not a staleness (C02 judges the successor itself)
+            c.count("divergence-without-scratch-difference");
+            return;
+        }
+        let sig = format!("{}{}", move_class(n.model, m), if m.promo.is_some() && !n.model.is_capture(m) { "-quiet" } else { "" });
+        let seen = match got {
+            Ok(p) => p.to_fen(),
+            Err(e) => format!("unobservable: {e}"),
+        };
+        c.violation(
+            "stale-incremental-state",
+            &format!("{}:after-{sig}", diffs[0]),
+            format!(
+                "{} then {}: the board reached by the move shows {seen}; it differs from the parser-built {fen} in {:?}\nmoved:\n{:?}\nscratch:\n{:?}",
+                n.model.to_fen(), moves_str(&[m]), diffs, moved, sb
+            ),
+            n.replay().set("then_move", moves_str(&[m])).set("route", "parser"),
+        );
+    }
     fn node(&mut self, c: &mut Collector, n: &Node, _rng: &mut Rng) {
         self.nodes += 1;
         c.eval();
